@@ -150,7 +150,14 @@ func runText(s *Session) string {
 			return
 		}
 		e.inc("text.parsed")
-		back, _ := json.Marshal(got)
+		var back []byte
+		if err == nil {
+			// (a value that failed to parse may be half-filled; only parsed values are compared)
+			if p := guardPanic(func() { back, _ = json.Marshal(got) }); p != "" {
+				e.violate("C20", "json-marshal-panic", fmt.Sprintf("%s: json.Marshal of a value that json.Unmarshal returned without error panicked (%s): %s", k.name, how, p))
+				return
+			}
+		}
 		if how == "" {
 			if err != nil {
 				e.violate("C20", "json-unmarshal-own-output", fmt.Sprintf("%s does not parse back from its own JSON: %v (%.300s)", k.name, err, buf))
